@@ -452,6 +452,48 @@ def fb_program(rng, pid, horizon):
     return P.program(pid, nodes, start=rng.choice([1, 1, 2]), end=horizon + 1)
 
 
+def check_dict_feedback(chk, rng):
+    """feedback of a collection-shaped payload (dictionary deltas incl. removal-only and mixed deltas), validated by
+    spec/FbDictTrace.tla: the reader sees exactly the written deltas one step later"""
+    import check_ops
+    scns = []
+    for k in range(80 if chk.tier == "quick" else 1200):
+        horizon = rng.choice([6, 8])
+        hist = check_ops.dict_history(rng, [1, 2, 3, 4], horizon, maxops=3)
+        if not hist:
+            continue
+        via_map = rng.random() < 0.4
+        lines = ["scn dfb%d" % k, "opt start=1 end=%d" % (horizon + 1)]
+        if via_map:
+            lines += ["graph g0 nin=1", "n 10 acc in=a0", "out 10", "endgraph"]
+        lines += ["graph root", "n 1 dsrc script=" + check_ops.dscript(hist)]
+        src = 1
+        if via_map:
+            lines.append("n 5 map g=0 in=1")
+            src = 5
+        lines += ["n 2 dfb", "n 3 drec in=%d" % src, "n 4 drec in=2", "bind 2 %d" % src, "endgraph", "run"]
+        scns.append(("\n".join(lines), horizon + 1))
+    traces = hg.run_driver("engine", [s for s, _ in scns])
+    items = []
+    for k, ((scn, end), tr) in enumerate(zip(scns, traces)):
+        chk.count({"scn": scn})
+        if isinstance(tr, dict) or any(e["e"] in ("wirefail", "harnessfail") for e in tr):
+            chk.violation("dfb:run", "dictionary feedback scenario crashed or could not be wired", scn)
+            continue
+        # empty ticks of the written dictionary carry no delta to deliver (see C20 known finding F3): not presented
+        ev = [e for e in tr if not (e["e"] == "drec" and not e["mod"] and not e["add"] and not e["rem"])]
+        items.append({"id": k, "prog": {"writer": 3, "reader": 4, "end": end}, "ev": ev})
+    verdicts, st, trn = tracecheck.validate("FbDictTrace", "FbDictTrace.cfg", items, "c08dict", keep={"drec", "ret"})
+    chk.coverage["states"] += st
+    chk.coverage["transitions"] += trn
+    chk.coverage["traces_validated_against_impl"] += len(items)
+    for it in items:
+        acc, why = verdicts[it["id"]]
+        if why:
+            chk.violation("dfb:%s" % why, "FbDictTrace.tla rejects the trace at event %d: %s" % (acc + 1, why), "# %s\n%s\n" % (why, scns[it["id"]][0]))
+    chk.notes["dictionary_feedback_scenarios"] = len(scns)
+
+
 def check_c08(chk, rng):
     n = 300 if chk.tier == "quick" else 4000
     progs = [fb_program(rng, i + 1, rng.choice([5, 7, 9])) for i in range(n)]
@@ -467,6 +509,7 @@ def check_c08(chk, rng):
     execute(cases)
     verdicts = validate(cases, chk, "c08")
     judge("C08", cases, verdicts, chk, ("C08.",), stream_is_mine=True)
+    check_dict_feedback(chk, rng)
     quiet = 0
     for c in cases:
         if isinstance(c.events, dict):
